@@ -2,6 +2,7 @@ package main
 
 import (
 	"fmt"
+	"reflect"
 	"strings"
 
 	"github.com/mfcochauxlaberge/jsonapi"
@@ -14,8 +15,25 @@ type specRow struct {
 
 // Go dynamic type of v equals the declared type of attribute a
 func hasAttrGoType(v any, a jsonapi.Attr) bool {
-	t, n := jsonapi.GetAttrType(fmt.Sprintf("%T", v))
-	return t == a.Type && n == a.Nullable && t != jsonapi.AttrTypeInvalid
+	// (decided here, not by asking the library's own GetAttrType)
+	gt, ok := kindGoType[a.Type]
+	return ok && gt != nil && v != nil && reflect.TypeOf(v) == goTypeOf(a.Type, a.Nullable)
+}
+
+// dblPtrRes: Get(name) returns **T where the attribute holds *T.
+type dblPtrRes struct {
+	jsonapi.Resource
+	name string
+}
+
+func (d dblPtrRes) Get(k string) any {
+	v := d.Resource.Get(k)
+	if rv := reflect.ValueOf(v); k == d.name && v != nil && rv.Kind() == reflect.Ptr {
+		pp := reflect.New(rv.Type())
+		pp.Elem().Set(rv)
+		return pp.Interface()
+	}
+	return v
 }
 
 func colDump(sc *jsonapi.SoftCollection) string {
@@ -78,6 +96,17 @@ func suiteCollection(r *Rng, n int, thorough bool, o *Out) {
 				}
 				id := idPool[r.IntN(6)]
 				fill(res, id, vals)
+				if r.chance(1, 8) {
+					// an application's own Resource whose Get hands out a pointer to the pointer
+					// for one nullable attribute: not the attribute's Go type, so not stored
+					for _, an := range sortedKeys(rt.Attrs) {
+						if rt.Attrs[an].Nullable {
+							res = dblPtrRes{res, an}
+							o.stat("add.pointer-to-pointer-value")
+							break
+						}
+					}
+				}
 				op = lst("col", "add", sxResView(res))
 				panicked, _ = guard(func() { sc.Add(res) })
 				// oracle: the type gains the fields it lacks; a value is kept when it has the
